@@ -299,8 +299,9 @@ pub fn regexp_exec(
         0
     };
 
-    // Check if lastIndex is past end of string
-    if last_index > input.len() {
+    // lastIndex and index count characters, like every string position; the
+    // matcher works on byte offsets
+    if last_index > super::string::char_len(&input) {
         if is_global || is_sticky {
             obj.borrow_mut()
                 .set_property(last_index_key, JsValue::Number(0.0));
@@ -310,7 +311,7 @@ pub fn regexp_exec(
 
     // Use the provider's find method which handles start position
     let match_result = re
-        .find(&input, last_index)
+        .find(&input, super::string::byte_offset(&input, last_index))
         .map_err(|e| JsError::syntax_error(e, 0, 0))?;
 
     match match_result {
@@ -331,15 +332,19 @@ pub fn regexp_exec(
             let arr = interp.create_array_from(&guard, result);
 
             // Set index property (match start position)
-            arr.borrow_mut()
-                .set_property(index_key, JsValue::Number(regex_match.start as f64));
+            arr.borrow_mut().set_property(
+                index_key,
+                JsValue::Number(super::string::char_position(&input, regex_match.start) as f64),
+            );
             arr.borrow_mut()
                 .set_property(input_key, JsValue::String(JsString::from(input.clone())));
 
             // Update lastIndex for global/sticky regexes
             if is_global || is_sticky {
-                obj.borrow_mut()
-                    .set_property(last_index_key, JsValue::Number(regex_match.end as f64));
+                obj.borrow_mut().set_property(
+                    last_index_key,
+                    JsValue::Number(super::string::char_position(&input, regex_match.end) as f64),
+                );
             }
 
             Ok(Guarded::with_guard(JsValue::Object(arr), guard))
